@@ -629,10 +629,9 @@ def c_mop(op):
     raise RuntimeError(op)
 
 
-def mo_violation(modict, odict, ps0, ops):
-    """reference multi-dict: ordered list of [key, [values...]]; newest = last"""
-    L = []
-
+def ref_mo_step(L, op):
+    """reference multi-dict (the property's statement): ordered list of [key, [values...]]; newest = last.
+    Applies op to L in place and returns the expected result encoding"""
     def find(k):
         for j, p in enumerate(L):
             if p[0] == k:
@@ -644,84 +643,90 @@ def mo_violation(modict, odict, ps0, ops):
         if j < 0: L.append([k, [v]])
         else: L[j][1].append(v)
 
+    t = op[0]
+    want = "skip"
+    k = op[1] if len(op) > 1 and isinstance(op[1], int) and t not in ("popitem", "poplistitem", "insert") else None
+    j = find(k) if k is not None else -1
+    if t == "add": add(k, op[2]); want = [0]
+    elif t == "get": want = [8, 0] if j < 0 else [2, L[j][1][-1]]
+    elif t == "getd": want = [2, op[2]] if j < 0 else [2, L[j][1][-1]]
+    elif t == "getidx":
+        want = [2, op[2]]
+        if j >= 0 and -len(L[j][1]) <= op[3] < len(L[j][1]): want = [2, L[j][1][op[3]]]
+    elif t == "getlist": want = [3] + enc_l([] if j < 0 else L[j][1])
+    elif t == "replace":
+        if j < 0: L.append([k, [op[2]]])
+        else: L[j][1] = [op[2]]
+        want = [0]
+    elif t == "setdefault":
+        if j < 0: add(k, op[2]); want = [2, op[2]]
+        else: want = [2, L[j][1][-1]]
+    elif t == "pop": want = [8, 0] if j < 0 else [2, L.pop(j)[1][-1]]
+    elif t == "popd": want = [2, op[2]] if j < 0 else [2, L.pop(j)[1][-1]]
+    elif t == "poplist": want = [8, 0] if j < 0 else [3] + enc_l(L.pop(j)[1])
+    elif t == "popitem":
+        if not L: want = [8, 0]
+        else:
+            p = L.pop(-1 if op[1] else 0); want = [7, p[0], p[1][-1]]
+    elif t == "poplistitem":
+        if not L: want = [8, 0]
+        else:
+            p = L.pop(-1 if op[1] else 0); want = [10, p[0]] + enc_l(p[1])
+    elif t == "del":
+        if j < 0: want = [8, 0]
+        else: L.pop(j); want = [0]
+    elif t == "has": want = [1, int(j >= 0)]
+    elif t == "len": want = [2, len(L)]
+    elif t == "keys": want = [4] + enc_l([p[0] for p in L])
+    elif t == "values": want = [3] + enc_l([p[1][-1] for p in L])
+    elif t == "items": want = [5] + enc_ps([(p[0], p[1][-1]) for p in L])
+    elif t == "listitems": want = [6] + enc_lps([(p[0], p[1]) for p in L])
+    elif t == "allitems": want = [5] + enc_ps([(p[0], v) for p in L for v in p[1]])
+    elif t in ("update", "updatem"):
+        for a, v in op[1]: add(a, v)
+        want = [0]
+    elif t == "clear": del L[:]; want = [0]
+    elif t in ("copy", "pickle"): want = [11] + enc_lps([(p[0], p[1]) for p in L])
+    elif t == "sift":
+        if op[1] is None: want = [11] + enc_lps([(p[0], p[1]) for p in L])
+        elif any(find(f) < 0 for f in op[1]): want = [8, 0]
+        else:
+            fs = []
+            for f in op[1]:
+                if f not in fs: fs.append(f)
+            want = [11] + enc_lps([(f, L[find(f)][1]) for f in fs])     # every value of every field kept
+    elif t == "insert":
+        if find(op[2]) >= 0: want = [8, 0]
+        else: L.insert(op[1], [op[2], [op[3]]]); want = [0]
+    elif t in ("reorder", "reordero"):
+        other = []
+        for a, v in op[1]:
+            for p in other:
+                if p[0] == a:
+                    if t == "reorder": p[1].append(v)
+                    else: p[1] = [v]
+                    break
+            else:
+                other.append([a, [v]])
+        for a, vl in other:
+            jj = find(a)
+            if jj >= 0: L.pop(jj)
+            L.append([a, list(vl)])
+        want = [0]
+    return want
+
+
+def mo_violation(modict, odict, ps0, ops):
+    L = []
     for k, v in ps0:
-        add(k, v)
+        ref_mo_step(L, ("add", k, v))
     try:
         with hang_guard():
             m = modict(dec_ps(ps0))
     except Hang:
         return {"step": 0, "op": ("modict",) + tuple(ps0), "impl_result": list(HANG), "why": "constructor did not terminate"}
     for i, op in enumerate(ops):
-        t = op[0]
-        want = "skip"
-        k = op[1] if len(op) > 1 and isinstance(op[1], int) and t not in ("popitem", "poplistitem", "insert") else None
-        j = find(k) if k is not None else -1
-        if t == "add": add(k, op[2]); want = [0]
-        elif t == "get": want = [8, 0] if j < 0 else [2, L[j][1][-1]]
-        elif t == "getd": want = [2, op[2]] if j < 0 else [2, L[j][1][-1]]
-        elif t == "getidx":
-            want = [2, op[2]]
-            if j >= 0 and -len(L[j][1]) <= op[3] < len(L[j][1]): want = [2, L[j][1][op[3]]]
-        elif t == "getlist": want = [3] + enc_l([] if j < 0 else L[j][1])
-        elif t == "replace":
-            if j < 0: L.append([k, [op[2]]])
-            else: L[j][1] = [op[2]]
-            want = [0]
-        elif t == "setdefault":
-            if j < 0: add(k, op[2]); want = [2, op[2]]
-            else: want = [2, L[j][1][-1]]
-        elif t == "pop": want = [8, 0] if j < 0 else [2, L.pop(j)[1][-1]]
-        elif t == "popd": want = [2, op[2]] if j < 0 else [2, L.pop(j)[1][-1]]
-        elif t == "poplist": want = [8, 0] if j < 0 else [3] + enc_l(L.pop(j)[1])
-        elif t == "popitem":
-            if not L: want = [8, 0]
-            else:
-                p = L.pop(-1 if op[1] else 0); want = [7, p[0], p[1][-1]]
-        elif t == "poplistitem":
-            if not L: want = [8, 0]
-            else:
-                p = L.pop(-1 if op[1] else 0); want = [10, p[0]] + enc_l(p[1])
-        elif t == "del":
-            if j < 0: want = [8, 0]
-            else: L.pop(j); want = [0]
-        elif t == "has": want = [1, int(j >= 0)]
-        elif t == "len": want = [2, len(L)]
-        elif t == "keys": want = [4] + enc_l([p[0] for p in L])
-        elif t == "values": want = [3] + enc_l([p[1][-1] for p in L])
-        elif t == "items": want = [5] + enc_ps([(p[0], p[1][-1]) for p in L])
-        elif t == "listitems": want = [6] + enc_lps([(p[0], p[1]) for p in L])
-        elif t == "allitems": want = [5] + enc_ps([(p[0], v) for p in L for v in p[1]])
-        elif t in ("update", "updatem"):
-            for a, v in op[1]: add(a, v)
-            want = [0]
-        elif t == "clear": del L[:]; want = [0]
-        elif t in ("copy", "pickle"): want = [11] + enc_lps([(p[0], p[1]) for p in L])
-        elif t == "sift":
-            if op[1] is None: want = [11] + enc_lps([(p[0], p[1]) for p in L])
-            elif any(find(f) < 0 for f in op[1]): want = [8, 0]
-            else:
-                fs = []
-                for f in op[1]:
-                    if f not in fs: fs.append(f)
-                want = [11] + enc_lps([(f, L[find(f)][1]) for f in fs])     # every value of every field kept
-        elif t == "insert":
-            if find(op[2]) >= 0: want = [8, 0]
-            else: L.insert(op[1], [op[2], [op[3]]]); want = [0]
-        elif t in ("reorder", "reordero"):
-            other = []
-            for a, v in op[1]:
-                for p in other:
-                    if p[0] == a:
-                        if t == "reorder": p[1].append(v)
-                        else: p[1] = [v]
-                        break
-                else:
-                    other.append([a, [v]])
-            for a, vl in other:
-                jj = find(a)
-                if jj >= 0: L.pop(jj)
-                L.append([a, list(vl)])
-            want = [0]
+        want = ref_mo_step(L, op)
         try:
             with hang_guard():
                 got = apply_mo(m, op, i, modict, odict)
@@ -735,6 +740,95 @@ def mo_violation(modict, odict, ps0, ops):
         if got != want or state != exp_state:
             return {"step": i, "op": op, "impl_result": got, "expected_result": want,
                     "impl_listitems": state, "expected_listitems": exp_state}
+    return None
+
+
+# --------------------------------------------------------------------------- two live modicts
+def apply_mo2(a, b, op, i, modict, odict):
+    t = op[0]
+    try:
+        if t == "a": return apply_mo(a, op[1], i, modict, odict)
+        if t == "b": return apply_mo(b, op[1], i, modict, odict)
+        if t == "arb": a.reorder(b); return [0]
+        if t == "bra": b.reorder(a); return [0]
+        if t == "aub": a.update(b); return [0]
+        if t == "bua": b.update(a); return [0]
+        raise RuntimeError("unknown op %r" % (op,))
+    except RuntimeError:
+        raise
+    except Exception as ex:
+        return enc_exc(ex)
+
+
+def run_mo2(modict, odict, psa, psb, ops):
+    out = []
+    try:
+        with hang_guard():
+            a, b = modict(dec_ps(psa)), modict(dec_ps(psb))
+            for i, op in enumerate(ops):
+                r = apply_mo2(a, b, op, i, modict, odict)
+                out += r + obs_mo(a) + obs_mo(b)
+    except Hang:
+        out += HANG
+    return out
+
+
+def c_mop2(op):
+    t = op[0]
+    if t == "a": return "OnA (%s)" % c_mop(op[1])
+    if t == "b": return "OnB (%s)" % c_mop(op[1])
+    return {"arb": "AReorderB", "bra": "BReorderA", "aub": "AUpdateB", "bua": "BUpdateA"}[t]
+
+
+def mo2_violation(modict, odict, ini, ops):
+    """two reference multi-dicts; an operation on one must never change the other"""
+    psa, psb = ini
+    La, Lb = [], []
+    for k, v in psa: ref_mo_step(La, ("add", k, v))
+    for k, v in psb: ref_mo_step(Lb, ("add", k, v))
+    try:
+        with hang_guard():
+            a, b = modict(dec_ps(psa)), modict(dec_ps(psb))
+    except Hang:
+        return {"step": 0, "op": ("modict",), "impl_result": list(HANG), "why": "constructor did not terminate"}
+    for i, op in enumerate(ops):
+        t = op[0]
+        if t == "a": want = ref_mo_step(La, op[1])
+        elif t == "b": want = ref_mo_step(Lb, op[1])
+        else:
+            (Lt, Lo) = (La, Lb) if t in ("arb", "aub") else (Lb, La)
+            for k, vl in [(p[0], list(p[1])) for p in Lo]:
+                if t in ("arb", "bra"):
+                    for j, p in enumerate(Lt):
+                        if p[0] == k:
+                            Lt.pop(j)
+                            break
+                    Lt.append([k, list(vl)])
+                else:
+                    for v in vl:
+                        ref_mo_step(Lt, ("add", k, v))
+            want = [0]
+        try:
+            with hang_guard():
+                got = apply_mo2(a, b, op, i, modict, odict)
+                try:
+                    sa = [(code(x), list(l)) for x, l in a.listitems()]
+                    sb = [(code(x), list(l)) for x, l in b.listitems()]
+                except Exception as ex:
+                    sa = sb = repr(ex)
+        except Hang:
+            got, sa, sb = list(HANG), "hang", "hang"
+        ea = [(p[0], list(p[1])) for p in La]
+        eb = [(p[0], list(p[1])) for p in Lb]
+        if got != want or sa != ea or sb != eb:
+            target_is_a = t in ("a", "arb", "aub")
+            other_changed = (sb != eb) if target_is_a else (sa != ea)
+            v = {"step": i, "op": op, "impl_result": got, "expected_result": want,
+                 "impl_listitems_a": sa, "expected_listitems_a": ea, "impl_listitems_b": sb, "expected_listitems_b": eb}
+            if other_changed and got == want:
+                v["why"] = "an operation on one modict changed the OTHER modict (they share a value list)"
+                v["aliasing"] = True
+            return v
     return None
 
 
@@ -1004,6 +1098,12 @@ def sequences(ctx, alphabet, inits, genop, nrand, lmax):
     return seqs
 
 
+MO2_ALPHABET = [("arb",), ("bra",), ("aub",), ("bua",),
+                ("a", ("add", 0, 5)), ("b", ("add", 0, 6)), ("a", ("add", 2, 5)), ("b", ("add", 4, 6)),
+                ("a", ("getlist", 0)), ("b", ("getlist", 0)), ("a", ("listitems",)), ("b", ("allitems",)),
+                ("a", ("copy",)), ("b", ("sift", [0])), ("a", ("pop", 0)), ("b", ("replace", 0, 9)),
+                ("a", ("pickle",)), ("b", ("updatem", [(0, 4)])), ("a", ("setdefault", 4, 3)), ("b", ("poplist", 0))]
+
 STATE = {}
 MAX_HANGS = 3          # per class in the correspondence run, 4x that in the search
 
@@ -1067,6 +1167,29 @@ def run(ctx):
         cases.append(("enc_mtrace (m_trace (m_adds %s empty) %s)" % (c_ps(ini), c_ops(ops, c_mop, "mop")), c_l(flat)))
         metas.append(("modict", ini, ops, flat))
         ctx.case({"class": "modict", "init": ini, "ops": ops}, nontrivial=mut(ops, MUT_MO), kind="modict")
+    # ---- two live modicts: operations on one never change the other
+    m2_inits = [([(0, 1), (0, 2), (2, 3)], [(0, 7), (4, 8)]), ([], [(0, 1)]), ([(2, 1)], [(2, 2), (2, 3)])]
+    seqs2 = [(ini, [x]) for ini in m2_inits for x in MO2_ALPHABET]
+    seqs2 += [(ini, [x, y]) for ini in m2_inits for x in MO2_ALPHABET for y in MO2_ALPHABET]
+    tri2 = [(ini, [x, y, w]) for ini in m2_inits[:1] for x in MO2_ALPHABET[:4] for y in MO2_ALPHABET for w in MO2_ALPHABET]
+    seqs2 += tri2 if ctx.thorough else rng.sample(tri2, 300)
+    for _ in range(ctx.n(150, 3000)):
+        ops = []
+        for _ in range(rng.randint(4, 15)):
+            r = rng.random()
+            if r < 0.25: ops.append((rng.choice(["arb", "bra", "aub", "bua"]),))
+            else: ops.append((rng.choice("ab"), gen_mo_op(rng, 3)))
+        seqs2.append((rng.choice(m2_inits), ops))
+    for ini, ops in seqs2:
+        if hangs.get("modict2", 0) >= MAX_HANGS:
+            break
+        flat = run_mo2(modict, odict, ini[0], ini[1], ops)
+        hangs["modict2"] = hangs.get("modict2", 0) + (flat[-2:] == HANG)
+        cases.append(("enc_m2trace (m2_trace (m_adds %s empty, m_adds %s empty) %s)"
+                      % (c_ps(ini[0]), c_ps(ini[1]), c_ops(ops, c_mop2, "mop2")), c_l(flat)))
+        metas.append(("modict2", ini, ops, flat))
+        ctx.case({"class": "modict2", "init": ini, "ops": ops},
+                 nontrivial=any(o[0] in ("arb", "bra", "aub", "bua") for o in ops) and len(ops) >= 2, kind="modict2")
     # ---- oset
     MUT_OS = ("add", "discard", "remove", "pop", "clear", "ior", "iand", "isub", "ixor")
     os_inits = [[], [0], [2, 0, 1], [1, 3, 0, 2]]
@@ -1109,7 +1232,7 @@ def shrink(viol, ini, ops):
             if v2:
                 ops, v, changed = cand[:v2["step"] + 1], v2, True
                 break
-    if ini and viol([], ops):
+    if ini and not isinstance(ini, tuple) and viol([], ops):
         ini, v = [], viol([], ops)
     return ini, ops, v
 
@@ -1133,6 +1256,14 @@ def family_key(nm, v):
     """finding key per defect family (one key per fix in fixes/C39-*.patch), so that an unaccepted fix can
     be listed as an open known finding without hiding the others; anything else gets a generic key"""
     op = v.get("op") or ("?",)
+    if nm == "modict2":
+        if v.get("aliasing"):
+            return "modict-aliasing"           # an operation on one modict changed another one
+        if op[0] in ("a", "b"):
+            return family_key("modict", dict(v, op=op[1]))
+        if list(v.get("impl_result") or []) == HANG:
+            return "modict-hang"
+        return "c39-modict2-%s" % op[0]
     t = op[0]
     got = v.get("impl_result") or []
     if list(got) == HANG:
@@ -1178,11 +1309,13 @@ def search(ctx):
         "lodict": lambda ini, ops: od_violation(lodict, odict, ini, ops, lambda k: k - k % 2),
         "modict": lambda ini, ops: mo_violation(modict, odict, ini, ops),
         "oset": lambda ini, ops: os_violation(oset, ini, ops),
+        "modict2": lambda ini, ops: mo2_violation(modict, odict, ini, ops),
     }
     contradicts = {"odict": "C39.Props.odict_keys_inv_all_ops / odict correspondence (Model.step, a_step)",
                    "lodict": "C39.Props.lodict_case_insensitive / lodict correspondence (Model.lo_step)",
                    "modict": "C39 modict correspondence (Model.m_step: keeps every value, returns newest)",
-                   "oset": "C39.Props.oset_ordered_set / oset correspondence (Model.s_step)"}
+                   "oset": "C39.Props.oset_ordered_set / oset correspondence (Model.s_step)",
+                   "modict2": "C39.Props.modict_ops_never_change_another / two-modict correspondence (Model.m2_step)"}
     metas = STATE.get("metas")
     if metas is None:         # the run died before the correspondence: generate directly
         metas = []
@@ -1194,6 +1327,11 @@ def search(ctx):
                     metas.append((nm, ini, [a], None))
                     for b in alpha[:25]:
                         metas.append((nm, ini, [b, a], None))
+        ini2 = ([(0, 1), (0, 2), (2, 3)], [(0, 7), (4, 8)])
+        for a in MO2_ALPHABET:
+            metas.append(("modict2", ini2, [a], None))
+            for b in MO2_ALPHABET:
+                metas.append(("modict2", ini2, [a, b], None))
     order = sorted(metas, key=lambda m: len(m[2]))          # shortest histories first
     found = {}                                               # key -> (nm, ini, ops)
     nh = {}
@@ -1229,6 +1367,7 @@ def search(ctx):
         except Exception:
             pass
     return {"key": key, "class": nm,
-            "init": [(K(k), x) for k, x in ini] if nm != "oset" else ini,
+            "init": ini if nm == "oset" else ({"a": [(K(k), x) for k, x in ini[0]], "b": [(K(k), x) for k, x in ini[1]]}
+                                              if nm == "modict2" else [(K(k), x) for k, x in ini]),
             "ops": ops, "key_codes": "code 2i -> lower-case letter i, 2i+1 -> upper-case letter i",
             "detail": v, "all_finding_keys_this_run": sorted(found), "contradicts": contradicts[nm]}
